@@ -31,4 +31,36 @@ structure C02Row where
   lock : C02Lock
   deriving DecidableEq, Repr
 
+/-! rows of `Pandora/Gen/C02Cb.lean` (area `c02cb`: core/coreutil/schedule.go) -/
+
+/-- path condition on the results of the wrapped call -/
+inductive C02CbCond where
+  | always
+  | notOk | isOk            -- second result of `Next`
+  | eqZero | neZero         -- result of `Left`
+  | other (src : String)
+  deriving DecidableEq, Repr
+
+inductive C02CbAct where
+  /-- `s.<x>.Do(s.<fn>)` with the type of the field `x` -/
+  | guardedCall (guardType : String) (fn : String)
+  | nothing
+  | other (src : String)
+  deriving DecidableEq, Repr
+
+structure C02CbRow where
+  method : String
+  inner : String
+  cond : C02CbCond
+  act : C02CbAct
+  deriving DecidableEq, Repr
+
+/-! used by `Pandora/Gen/C02Src.lean` (area `c02src`: core/schedule/composite.go) -/
+
+/-- what `compositeSchedule.Left` does after its reader section -/
+inductive C02LeftAct where
+  | ret (n : Int)
+  | shift              -- the writer section, then `return s.Left()`
+  deriving DecidableEq, Repr
+
 end Pandora.Go
